@@ -2,6 +2,7 @@
 //! acceptance oracle (well-scoped ⇔ no scoping diagnostic) on the whole pipeline.
 use crate::rng::Rng;
 use crate::sexp::{S, a, esc_line, l, n, tagged};
+use std::collections::HashSet;
 use crate::util::{self, Outcome};
 use ast::ast;
 use compiler::hir;
@@ -45,7 +46,16 @@ fn expr_sexp(e: &ast::Expr, outside: &mut usize) -> S {
         EUnit { .. } | EBool { .. } | EInt { .. } | EInt8 { .. } | EInt16 { .. } | EInt32 { .. }
         | EInt64 { .. } | EUInt8 { .. } | EUInt16 { .. } | EUInt32 { .. } | EUInt64 { .. }
         | EFloat { .. } | EFloat32 { .. } | EFloat64 { .. } | EString { .. } => tagged("n", vec![]),
-        EConstr { args, .. } => node(args.iter().collect(), outside),
+        EConstr { constructor, args, astptr } => {
+            if constructor.len() == 1 {
+                // a bare name that AST lowering classified as a constructor
+                let mut v = vec![a(&constructor.segments[0].ident.0), n(off(astptr))];
+                v.extend(args.iter().map(|e| expr_sexp(e, outside)));
+                tagged("k", v)
+            } else {
+                node(args.iter().collect(), outside)
+            }
+        }
         EStructLiteral { fields, .. } => node(fields.iter().map(|(_, e)| e).collect(), outside),
         ETuple { items, .. } | EArray { items, .. } => node(items.iter().collect(), outside),
         ELet { pat, value, .. } => {
@@ -107,19 +117,40 @@ fn ast_fns(file: &ast::File) -> Vec<&ast::Fn> {
     v
 }
 
-pub struct ScopeDump {
+pub struct FileDump {
+    /// names that are constructors when written bare in this file: variants of the package's
+    /// enums (`ConstructorIndex`) and structs of the file (`collect_constructor_names`)
+    pub ctors: Vec<String>,
     pub fns: Vec<S>,
+}
+
+pub struct ScopeDump {
+    pub files: Vec<FileDump>,
+    /// `def_names` of the package and the builtin functions
+    pub defs: Vec<String>,
     pub use_tags: Vec<(u32, String)>,
     pub outside: usize,
     pub binders: usize,
+    /// bare names that lowering classified as constructors
+    pub con_nodes: usize,
 }
 
-fn collect_use_tags(s: &S, out: &mut Vec<(u32, String)>, binders: &mut usize) {
+fn collect_use_tags(s: &S, out: &mut Vec<(u32, String)>, binders: &mut usize, cons: &mut usize) {
     if let S::L(items) = s {
         if let (Some(S::A(h)), Some(S::A(name)), Some(S::A(t))) = (items.first(), items.get(1), items.get(2)) {
             if h == "v" {
                 if let Ok(t) = t.parse() {
                     out.push((t, name.clone()));
+                }
+                return;
+            }
+            if h == "k" {
+                if let Ok(t) = t.parse() {
+                    out.push((t, name.clone()));
+                    *cons += 1;
+                }
+                for it in &items[3..] {
+                    collect_use_tags(it, out, binders, cons);
                 }
                 return;
             }
@@ -129,7 +160,7 @@ fn collect_use_tags(s: &S, out: &mut Vec<(u32, String)>, binders: &mut usize) {
             }
         }
         for it in items {
-            collect_use_tags(it, out, binders);
+            collect_use_tags(it, out, binders, cons);
         }
     }
 }
@@ -140,6 +171,15 @@ fn all_tags(s: &S, out: &mut Vec<u32>) {
             if (h == "v" || h == "pv") && items.len() == 3 {
                 if let Ok(t) = t.parse() {
                     out.push(t);
+                }
+                return;
+            }
+            if h == "k" {
+                if let Ok(t) = t.parse() {
+                    out.push(t);
+                }
+                for it in &items[3..] {
+                    all_tags(it, out);
                 }
                 return;
             }
@@ -161,77 +201,129 @@ fn all_tags(s: &S, out: &mut Vec<u32>) {
     }
 }
 
-pub fn scope_dump(file: &ast::File) -> ScopeDump {
-    let mut outside = 0;
-    let mut synthetic = 0usize;
-    let mut seen_tags: std::collections::HashSet<u32> = std::collections::HashSet::new();
-    let mut fns = Vec::new();
-    for (fi, f) in ast_fns(file).into_iter().enumerate() {
-        let params = f
-            .params
-            .iter()
-            .enumerate()
-            .map(|(k, (id, _))| l(vec![a(&id.0), n(PARAM_BASE + fi as u32 * 1000 + k as u32)]))
-            .collect();
-        let cand = tagged("fn", vec![l(params), expr_sexp(&f.body, &mut outside)]);
-        // derive-generated methods reuse the attribute's syntax pointer for every node: their
-        // occurrences cannot be told apart by offset, so they are left out of the comparison
-        let mut tags = Vec::new();
-        all_tags(&cand, &mut tags);
-        let mut uniq = tags.clone();
-        uniq.sort();
-        uniq.dedup();
-        if uniq.len() != tags.len() || tags.iter().any(|t| seen_tags.contains(t)) {
-            synthetic += 1;
-            fns.push(tagged("fn", vec![l(vec![]), tagged("n", vec![])]));
-        } else {
-            seen_tags.extend(tags);
-            fns.push(cand);
+/// package-level names of the files of ONE package, read off the declarations (not off what
+/// the resolver did): per-file constructor names and the package's definition names
+fn declared_globals(files: &[&ast::File]) -> (Vec<Vec<String>>, Vec<String>) {
+    let mut variants: Vec<String> = Vec::new();
+    let mut defs: Vec<String> = Vec::new();
+    let mut push = |v: &mut Vec<String>, x: &str| {
+        if !v.iter().any(|y| y == x) {
+            v.push(x.to_string());
+        }
+    };
+    for f in files {
+        for item in &f.toplevels {
+            match item {
+                ast::Item::EnumDef(e) => {
+                    push(&mut defs, &e.name.0);
+                    for (v, _) in &e.variants {
+                        push(&mut variants, &v.0);
+                    }
+                }
+                ast::Item::StructDef(d) => push(&mut defs, &d.name.0),
+                ast::Item::TraitDef(d) => push(&mut defs, &d.name.0),
+                ast::Item::Fn(d) => push(&mut defs, &d.name.0),
+                ast::Item::ExternGo(d) => push(&mut defs, &d.goml_name.0),
+                ast::Item::ExternType(d) => push(&mut defs, &d.goml_name.0),
+                ast::Item::ExternBuiltin(d) => push(&mut defs, &d.name.0),
+                ast::Item::ImplBlock(_) => {}
+            }
         }
     }
-    let _ = synthetic;
-    let mut use_tags = Vec::new();
-    let mut binders = 0;
-    for f in &fns {
-        collect_use_tags(f, &mut use_tags, &mut binders);
+    for b in compiler::builtins::builtin_function_names() {
+        push(&mut defs, &b);
     }
-    ScopeDump { fns, use_tags, outside, binders }
+    let per_file = files
+        .iter()
+        .map(|f| {
+            let mut c = variants.clone();
+            for item in &f.toplevels {
+                if let ast::Item::StructDef(d) = item {
+                    push(&mut c, &d.name.0);
+                }
+            }
+            c
+        })
+        .collect();
+    (per_file, defs)
 }
 
-/// what the real resolver decided: use offset -> binder tag / none
-pub fn real_resolution(
-    file: ast::File,
-    uses_named: &[(u32, String)],
-    globals: &mut Vec<String>,
-) -> Result<String, String> {
-    let use_tags: Vec<u32> = uses_named.iter().map(|(t, _)| *t).collect();
-    let use_tags = &use_tags[..];
+/// the scope trees of all functions of the files of one package, in `pkg.toplevels` order
+pub fn scope_dump(files: &[&ast::File]) -> ScopeDump {
+    let mut outside = 0;
+    let mut seen_tags: HashSet<u32> = HashSet::new();
+    let (ctors, defs) = declared_globals(files);
+    let mut out_files = Vec::new();
+    let mut fi = 0u32;
+    for (file, ctors) in files.iter().zip(ctors) {
+        let mut fns = Vec::new();
+        for f in ast_fns(file) {
+            let params = f
+                .params
+                .iter()
+                .enumerate()
+                .map(|(k, (id, _))| l(vec![a(&id.0), n(PARAM_BASE + fi * 1000 + k as u32)]))
+                .collect();
+            fi += 1;
+            let cand = tagged("fn", vec![l(params), expr_sexp(&f.body, &mut outside)]);
+            // derive-generated methods reuse the attribute's syntax pointer for every node: their
+            // occurrences cannot be told apart by offset, so they are left out of the comparison
+            let mut tags = Vec::new();
+            all_tags(&cand, &mut tags);
+            let mut uniq = tags.clone();
+            uniq.sort();
+            uniq.dedup();
+            if uniq.len() != tags.len() || tags.iter().any(|t| seen_tags.contains(t)) {
+                fns.push(tagged("fn", vec![l(vec![]), tagged("n", vec![])]));
+            } else {
+                seen_tags.extend(tags);
+                fns.push(cand);
+            }
+        }
+        out_files.push(FileDump { ctors, fns });
+    }
+    let mut use_tags = Vec::new();
+    let mut binders = 0;
+    let mut con_nodes = 0;
+    for f in out_files.iter().flat_map(|f| f.fns.iter()) {
+        collect_use_tags(f, &mut use_tags, &mut binders, &mut con_nodes);
+    }
+    ScopeDump { files: out_files, defs, use_tags, outside, binders, con_nodes }
+}
+
+pub struct Real {
+    /// use tag -> binder tag | C (constructor) | G (definition, builtin) | - (unresolved)
+    pub map: String,
+    /// groups of binder occurrences that were given ONE LocalId
+    pub shared: Vec<Vec<u32>>,
+}
+
+/// what the real resolver decided for every bare name of the package's files
+pub fn real_resolution(files: Vec<(std::path::PathBuf, ast::File)>, uses_named: &[(u32, String)]) -> Result<Real, String> {
     let r = std::panic::catch_unwind(std::panic::AssertUnwindSafe(|| {
-        hir::lower_to_hir_files(vec![hir::SourceFileAst {
-            path: std::path::PathBuf::from("main.gom"),
-            ast: file,
-        }])
+        hir::lower_to_hir_files(files.into_iter().map(|(path, ast)| hir::SourceFileAst { path, ast }).collect())
     }));
     let (pkg, table, _diags) = match r {
         Ok(x) => x,
         Err(p) => return Err(format!("panic: {}", util::panic_message(p))),
     };
-    let mut binder_tag: HashMap<hir::LocalId, u32> = HashMap::new();
-    // fn params, in the same order as `ast_fns`
+    // every binder occurrence with the id it was given
+    let mut binders: Vec<(u32, hir::LocalId)> = Vec::new();
+    // fn params, in the same order as `ast_fns` over the files
     let mut fi = 0u32;
-    let mut add_fn = |f: &hir::Fn, binder_tag: &mut HashMap<hir::LocalId, u32>, fi: &mut u32| {
+    let mut add_fn = |f: &hir::Fn, binders: &mut Vec<(u32, hir::LocalId)>, fi: &mut u32| {
         for (k, (id, _)) in f.params.iter().enumerate() {
-            binder_tag.insert(*id, PARAM_BASE + *fi * 1000 + k as u32);
+            binders.push((PARAM_BASE + *fi * 1000 + k as u32, *id));
         }
         *fi += 1;
     };
     for def_id in &pkg.toplevels {
         match table.def(*def_id) {
-            hir::Def::Fn(f) => add_fn(f, &mut binder_tag, &mut fi),
+            hir::Def::Fn(f) => add_fn(f, &mut binders, &mut fi),
             hir::Def::ImplBlock(ib) => {
                 for m in &ib.methods {
                     if let hir::Def::Fn(f) = table.def(*m) {
-                        add_fn(f, &mut binder_tag, &mut fi);
+                        add_fn(f, &mut binders, &mut fi);
                     }
                 }
             }
@@ -241,64 +333,77 @@ pub fn real_resolution(
     let pkg_id = table.package();
     for idx in 0..table.pat_count() as u32 {
         if let hir::Pat::PVar { name, astptr } = table.pat(hir::PatId { pkg: pkg_id, idx }) {
-            binder_tag.insert(*name, off(astptr));
+            binders.push((off(astptr), *name));
         }
     }
-    let mut uses: HashMap<u32, Option<hir::LocalId>> = HashMap::new();
-    let mut global_tags: std::collections::HashSet<u32> = std::collections::HashSet::new();
+    let builtin_fns = compiler::builtins::builtin_function_names();
+    let mut uses: HashMap<u32, String> = HashMap::new();
+    let mut local_uses: Vec<(u32, hir::LocalId)> = Vec::new();
     for idx in 0..table.expr_count() as u32 {
         match table.expr(hir::ExprId { pkg: pkg_id, idx }) {
             hir::Expr::EClosure { params, .. } => {
                 for p in params {
-                    binder_tag.insert(p.name, off(&p.astptr));
+                    binders.push((off(&p.astptr), p.name));
                 }
             }
-            hir::Expr::ENameRef { res, astptr: Some(ptr), .. } => {
-                let v = match res {
-                    hir::NameRef::Local(id) => Some(*id),
-                    hir::NameRef::Unresolved(_) => None,
-                    _ => {
-                        global_tags.insert(off(ptr));
-                        None
-                    }
-                };
-                uses.insert(off(ptr), v);
-            }
+            hir::Expr::ENameRef { res, astptr: Some(ptr), .. } => match res {
+                hir::NameRef::Local(id) => local_uses.push((off(ptr), *id)),
+                hir::NameRef::Def(_) | hir::NameRef::Builtin(_) => {
+                    uses.insert(off(ptr), "G".to_string());
+                }
+                // the resolver leaves the builtin functions to the typer's function environment
+                hir::NameRef::Unresolved(path) => {
+                    let g = path.len() == 1 && path.last_ident().is_some_and(|x| builtin_fns.contains(x));
+                    uses.insert(off(ptr), if g { "G" } else { "-" }.to_string());
+                }
+            },
             hir::Expr::EConstr { .. } => {
                 if let Some(ptr) = table.expr_ptr(hir::ExprId { pkg: pkg_id, idx }) {
-                    global_tags.insert(off(&ptr));
+                    uses.entry(off(&ptr)).or_insert_with(|| "C".to_string());
                 }
             }
             _ => {}
         }
     }
-    let builtin_fns = compiler::builtins::builtin_function_names();
-    for (t, name) in uses_named {
-        if builtin_fns.contains(name) && !globals.contains(name) {
-            globals.push(name.clone());
-        }
-        if global_tags.contains(t) && !uses.get(t).map(|u| u.is_some()).unwrap_or(false) && !globals.contains(name) {
-            globals.push(name.clone());
+    let mut binder_tag: HashMap<hir::LocalId, u32> = HashMap::new();
+    let mut by_id: HashMap<hir::LocalId, Vec<u32>> = HashMap::new();
+    for (t, id) in &binders {
+        binder_tag.insert(*id, *t);
+        let v = by_id.entry(*id).or_default();
+        if !v.contains(t) {
+            v.push(*t);
         }
     }
+    let mut shared: Vec<Vec<u32>> = by_id.into_values().filter(|v| v.len() > 1).collect();
+    shared.sort();
+    for (t, id) in local_uses {
+        let b = binder_tag.get(&id).map(|b| b.to_string()).unwrap_or_else(|| "?".to_string());
+        uses.insert(t, b);
+    }
     let mut out = String::new();
-    for (i, t) in use_tags.iter().enumerate() {
+    for (i, (t, _)) in uses_named.iter().enumerate() {
         if i > 0 {
             out.push(' ');
         }
         match uses.get(t) {
-            Some(Some(id)) => match binder_tag.get(id) {
-                Some(b) => write!(out, "{}>{}", t, b).unwrap(),
-                None => write!(out, "{}>?", t).unwrap(),
-            },
-            // not a name reference in HIR (constructor) or a non-local name
-            Some(None) | None => write!(out, "{}>-", t).unwrap(),
+            Some(r) => write!(out, "{}>{}", t, r).unwrap(),
+            // no HIR node at this offset
+            None => write!(out, "{}>!", t).unwrap(),
         }
     }
-    Ok(out)
+    Ok(Real { map: out, shared })
 }
 
 // ---------------------------------------------------------------- generator
+
+/// where the enum whose constructors are spelled like local names is declared
+#[derive(Clone, Copy, PartialEq, Eq, Debug)]
+enum Site {
+    None,
+    SameFile,
+    OtherFile,
+    Imported,
+}
 
 struct Gen {
     rng: Rng,
@@ -306,18 +411,82 @@ struct Gen {
     strays: usize,
     globals_clash: bool,
     feats: HashMap<&'static str, usize>,
+    /// names binders and uses are drawn from
+    pool: Vec<&'static str>,
+    site: Site,
+    /// nullary / one-payload variant of `enum Color`
+    v_null: &'static str,
+    v_pay: &'static str,
+    /// names that are constructors when written bare in main.gom (variants of an enum of the
+    /// file, structs of the file): in PATTERN position such a name is a constructor pattern,
+    /// not a binder
+    file_ctors: Vec<&'static str>,
+    /// names that are constructors of the package when written bare in an expression
+    pkg_ctors: Vec<&'static str>,
+    /// `ctorpat` stream: pattern positions may use constructor names all the same
+    ctor_patterns: bool,
+    /// one parameter list / pattern / closure parameter list may bind a name twice
+    dups: bool,
+    has_struct: bool,
 }
 
 const NAMES: [&str; 3] = ["a", "b", "c"];
+
+#[derive(Clone, Copy, PartialEq, Eq)]
+enum Binder {
+    /// fn or closure parameter: always a binder
+    Param,
+    /// variable pattern (let, match arm, tuple / struct sub-pattern)
+    Pattern,
+}
 
 impl Gen {
     fn feat(&mut self, f: &'static str) {
         *self.feats.entry(f).or_default() += 1;
     }
+    fn binder(&mut self, kind: Binder) -> &'static str {
+        let x = *self.rng.pick(&self.pool);
+        if self.pkg_ctors.contains(&x) || x == "cv" || x == "Color" || x == "P" {
+            match kind {
+                Binder::Param => self.feat("binder-like-global:param"),
+                Binder::Pattern => self.feat("binder-like-global:pattern"),
+            }
+        }
+        if kind == Binder::Pattern && self.file_ctors.contains(&x) {
+            if self.ctor_patterns {
+                self.feat("ctor-name-in-pattern-position");
+                return x;
+            }
+            // the free names of the pool, else a name of no declaration
+            let free: Vec<&'static str> = self.pool.iter().copied().filter(|y| !self.file_ctors.contains(y)).collect();
+            return if free.is_empty() { "c" } else { *self.rng.pick(&free) };
+        }
+        x
+    }
+    /// a second binder for the same parameter list / pattern: the same name again when
+    /// duplicates are on, a different one otherwise
+    fn binder2(&mut self, kind: Binder, first: &'static str) -> Option<&'static str> {
+        let y = self.binder(kind);
+        if y != first {
+            return Some(y);
+        }
+        if self.dups {
+            self.feat(match kind {
+                Binder::Param => "duplicate:params",
+                Binder::Pattern => "duplicate:pattern",
+            });
+            Some(y)
+        } else {
+            None
+        }
+    }
     fn var(&mut self, scope: &[&'static str]) -> String {
         if self.rng.chance(self.stray, 1000) {
             self.strays += 1;
-            return self.rng.pick(&NAMES).to_string();
+            // not the type names: `Color` as a value resolves (to the enum's DefId) and is then
+            // refused by the typer as "Function Color not found" — not a question of scoping
+            let vals: Vec<&'static str> = self.pool.iter().copied().filter(|x| *x != "Color" && *x != "P").collect();
+            return self.rng.pick(&vals).to_string();
         }
         if scope.is_empty() {
             return format!("{}", self.rng.below(9));
@@ -327,11 +496,37 @@ impl Gen {
         let i = if self.rng.chance(1, 2) { k - 1 - self.rng.below(k.min(2)) } else { self.rng.below(k) };
         scope[i].to_string()
     }
+    /// an int32 expression that USES a constructor of `Color`: bare where no local binder of
+    /// that name is in scope (and the constructor is visible unqualified), qualified otherwise
+    fn ctor_use(&mut self, scope: &mut Vec<&'static str>, depth: usize) -> Option<String> {
+        if self.site == Site::None || scope.contains(&"cv") {
+            return None;
+        }
+        let payload = self.rng.chance(1, 2);
+        let v = if payload { self.v_pay } else { self.v_null };
+        let arg = if payload { format!("({})", self.expr(scope, depth.saturating_sub(1))) } else { String::new() };
+        let bare_ok = self.site != Site::Imported && !scope.contains(&v);
+        Some(if self.site == Site::Imported {
+            self.feat("ctor-use:package-qualified");
+            format!("Lib::cv(Lib::Color::{}{})", v, arg)
+        } else if bare_ok && self.rng.chance(2, 3) {
+            self.feat(if payload { "ctor-use:bare-payload" } else { "ctor-use:bare-nullary" });
+            format!("cv({}{})", v, arg)
+        } else {
+            self.feat("ctor-use:enum-qualified");
+            format!("cv(Color::{}{})", v, arg)
+        })
+    }
     fn expr(&mut self, scope: &mut Vec<&'static str>, depth: usize) -> String {
         if depth == 0 || self.rng.chance(1, 4) {
+            if self.site != Site::None && self.rng.chance(1, 5) {
+                if let Some(e) = self.ctor_use(scope, 0) {
+                    return e;
+                }
+            }
             return if self.rng.chance(4, 5) { self.var(scope) } else { format!("{}", self.rng.below(9)) };
         }
-        match self.rng.below(6) {
+        match self.rng.below(9) {
             0 => {
                 self.feat("binary");
                 format!("({} + {})", self.expr(scope, depth - 1), self.expr(scope, depth - 1))
@@ -346,7 +541,7 @@ impl Gen {
             3 => {
                 self.feat("match-var");
                 let s = self.expr(scope, depth - 1);
-                let x = *self.rng.pick(&NAMES);
+                let x = self.binder(Binder::Pattern);
                 let e0 = if self.rng.chance(1, 2) { self.block(scope, depth - 1) } else { self.expr(scope, depth - 1) };
                 scope.push(x);
                 let e1 = if self.rng.chance(1, 2) { self.block(scope, depth - 1) } else { self.expr(scope, depth - 1) };
@@ -357,23 +552,68 @@ impl Gen {
                 self.feat("match-tuple");
                 let s1 = self.expr(scope, depth - 1);
                 let s2 = self.expr(scope, depth - 1);
-                let x = *self.rng.pick(&NAMES);
-                let y = *self.rng.pick(&NAMES);
-                let z = *self.rng.pick(&NAMES);
+                let x = self.binder(Binder::Pattern);
+                let y = self.binder2(Binder::Pattern, x);
+                let z = self.binder(Binder::Pattern);
                 // first arm binds z; its binding must not be visible in the second arm
                 scope.push(z);
                 let e2 = self.expr(scope, depth - 1);
                 scope.pop();
                 let before = scope.len();
                 scope.push(x);
-                if y != x {
+                if let Some(y) = y {
                     scope.push(y);
                 }
-                let yy = if y == x { "_" } else { y };
+                let yy = y.unwrap_or("_");
                 let e1 = self.expr(scope, depth - 1);
                 scope.truncate(before);
                 format!("match ({}, {}) {{ ({}, 0) => {}, ({}, {}) => {}, }}", s1, s2, z, e2, x, yy, e1)
             }
+            5 if self.has_struct => {
+                // struct pattern: shorthand field (always a binder) and a renamed field
+                self.feat("match-struct");
+                let s1 = self.expr(scope, depth - 1);
+                let s2 = self.expr(scope, depth - 1);
+                let shorthand = self.rng.chance(1, 2);
+                let f1 = self.pool[0];
+                let x = if shorthand { f1 } else { self.binder(Binder::Pattern) };
+                if shorthand && (self.pkg_ctors.contains(&f1) || self.file_ctors.contains(&f1)) {
+                    self.feat("binder-like-global:shorthand-field");
+                }
+                let y = self.binder2(Binder::Pattern, x);
+                let before = scope.len();
+                scope.push(x);
+                if let Some(y) = y {
+                    scope.push(y);
+                }
+                let e1 = self.expr(scope, depth - 1);
+                scope.truncate(before);
+                let p1 = if shorthand { f1.to_string() } else { format!("{}: {}", f1, x) };
+                format!("match (P {{ {}: {}, q: {} }}) {{ P {{ {}, q: {} }} => {}, }}", f1, s1, s2, p1, y.unwrap_or("_"), e1)
+            }
+            6 => {
+                // closure with two parameters, called in place of its use
+                self.feat("closure2");
+                let x = self.binder(Binder::Param);
+                let y = self.binder2(Binder::Param, x);
+                let before = scope.len();
+                scope.push(x);
+                if let Some(y) = y {
+                    scope.push(y);
+                }
+                let body = self.expr(scope, depth - 1);
+                scope.truncate(before);
+                let a1 = self.expr(scope, depth - 1);
+                let a2 = self.expr(scope, depth - 1);
+                match y {
+                    Some(y) => format!("(|{}: int32, {}: int32| {})({}, {})", x, y, body, a1, a2),
+                    None => format!("(|{}: int32| {})({})", x, body, a1),
+                }
+            }
+            7 => match self.ctor_use(scope, depth) {
+                Some(e) => e,
+                None => self.var(scope),
+            },
             _ => {
                 self.feat("if-nested");
                 let t = self.block(scope, depth - 1);
@@ -388,23 +628,23 @@ impl Gen {
         let mut s = String::from("{ ");
         let nstmts = self.rng.below(3);
         for _ in 0..nstmts {
-            match self.rng.below(6) {
+            match self.rng.below(7) {
                 0 if depth > 0 => {
                     // closure bound and called: parameter scopes over the body only
                     self.feat("closure");
-                    let x = *self.rng.pick(&NAMES);
+                    let x = self.binder(Binder::Param);
                     scope.push(x);
                     let body = if self.rng.chance(1, 2) { self.block(scope, depth - 1) } else { self.expr(scope, depth - 1) };
                     scope.pop();
                     let arg = self.expr(scope, depth.saturating_sub(1));
-                    let r = *self.rng.pick(&NAMES);
+                    let r = self.binder(Binder::Pattern);
                     write!(s, "let f = |{}: int32| {}; let {} = f({}); ", x, body, r, arg).unwrap();
                     scope.push(r);
                 }
                 1 if depth > 0 => {
                     // loop body is a scope of its own
                     self.feat("while");
-                    let x = *self.rng.pick(&NAMES);
+                    let x = self.binder(Binder::Pattern);
                     let v = self.expr(scope, depth - 1);
                     scope.push(x);
                     let inner = self.expr(scope, depth - 1);
@@ -415,8 +655,21 @@ impl Gen {
                     let e = self.expr(scope, depth);
                     write!(s, "let _ = {}; ", e).unwrap();
                 }
+                3 => {
+                    // tuple pattern in a let: both names are visible to the end of the block
+                    self.feat("let-tuple");
+                    let v1 = self.expr(scope, depth);
+                    let v2 = self.expr(scope, depth);
+                    let x = self.binder(Binder::Pattern);
+                    let y = self.binder2(Binder::Pattern, x);
+                    write!(s, "let ({}, {}) = ({}, {}); ", x, y.unwrap_or("_"), v1, v2).unwrap();
+                    scope.push(x);
+                    if let Some(y) = y {
+                        scope.push(y);
+                    }
+                }
                 _ => {
-                    let x = *self.rng.pick(&NAMES);
+                    let x = self.binder(Binder::Pattern);
                     let v = self.expr(scope, depth);
                     self.feat("let");
                     write!(s, "let {} = {}; ", x, v).unwrap();
@@ -429,70 +682,171 @@ impl Gen {
         scope.truncate(before);
         s
     }
-    fn program(&mut self, depth: usize) -> String {
-        let mut src = String::new();
+    /// the files of one program: `main.gom` first
+    fn program(&mut self, depth: usize) -> Vec<(String, String)> {
         let nparams = self.rng.below(3);
         let mut scope: Vec<&'static str> = Vec::new();
         let mut ps = Vec::new();
-        for i in 0..nparams {
-            let x = NAMES[(i + self.rng.below(3)) % 3];
-            if !scope.contains(&x) {
+        for _ in 0..nparams {
+            let x = self.binder(Binder::Param);
+            if !scope.contains(&x) || self.dups {
+                if scope.contains(&x) {
+                    self.feat("duplicate:params");
+                }
                 scope.push(x);
                 ps.push(format!("{}: int32", x));
             }
         }
         let body = self.block(&mut scope, depth);
+        let mut src = String::new();
+        let mut decls = String::new();
+        if self.site != Site::None {
+            writeln!(decls, "enum Color {{ {}, {}(int32) }}", self.v_null, self.v_pay).unwrap();
+            // bare constructor patterns where the enum is declared; qualified ones otherwise
+            let q = if self.rng.chance(1, 2) { "Color::" } else { "" };
+            writeln!(
+                decls,
+                "fn cv(c: Color) -> int32 {{ match c {{ {}{} => 7, {}{}(x) => x }} }}",
+                q, self.v_null, q, self.v_pay
+            )
+            .unwrap();
+        }
+        let struct_decl = format!("struct P {{ {}: int32, q: int32 }}\n", self.pool[0]);
         // top-level items spelled like the local names: a local binder must shadow them
         if self.globals_clash {
             writeln!(src, "fn a(x: int32) -> int32 {{ x + 100 }}").unwrap();
             writeln!(src, "fn b() -> int32 {{ 200 }}").unwrap();
         }
+        if self.has_struct {
+            src.push_str(&struct_decl);
+        }
+        if self.site == Site::SameFile {
+            src.push_str(&decls);
+        }
         writeln!(src, "fn g({}) -> int32 {}", ps.join(", "), body).unwrap();
         let args: Vec<String> = ps.iter().enumerate().map(|(i, _)| format!("{}", i + 1)).collect();
         writeln!(src, "fn main() {{ string_println(int32_to_string(g({}))) }}", args.join(", ")).unwrap();
-        src
+        match self.site {
+            Site::None | Site::SameFile => vec![("main.gom".to_string(), src)],
+            Site::OtherFile => {
+                // offsets identify occurrences: keep those of main.gom above those of types.gom
+                let pad = format!("//{}\n", "-".repeat(decls.len() + 8));
+                vec![("main.gom".to_string(), format!("{}{}", pad, src)), ("types.gom".to_string(), decls)]
+            }
+            Site::Imported => vec![
+                ("main.gom".to_string(), format!("package Main\nimport Lib\n{}", src)),
+                ("Lib/lib.gom".to_string(), format!("package Lib\n{}", decls)),
+            ],
+        }
     }
 }
 
-fn run_case(id: &str, src: &str, dir: &Path, real_path: Option<&Path>, out: &mut String, extra: &str) {
-    let path = real_path.map(|p| p.to_path_buf()).unwrap_or_else(|| dir.join("main.gom"));
-    let parsed = std::panic::catch_unwind(std::panic::AssertUnwindSafe(|| {
-        compiler::pipeline::pipeline::parse_ast_file(&path, src)
-    }));
-    let file = match parsed {
-        Ok(Ok(f)) => f,
-        Ok(Err(e)) => {
-            writeln!(out, "{}\tSKIP\tparse-{}\t{}", id, util::stage_of(&e), esc_line(src)).unwrap();
-            return;
+const FILE_MARK: &str = "//// file: ";
+
+/// one text for a whole program: a single file as it is, several files with `//// file: <path>` lines
+pub fn join_project(files: &[(String, String)]) -> String {
+    if files.len() == 1 {
+        return files[0].1.clone();
+    }
+    let mut s = String::new();
+    for (p, src) in files {
+        writeln!(s, "{}{}", FILE_MARK, p).unwrap();
+        s.push_str(src);
+        if !src.ends_with('\n') {
+            s.push('\n');
         }
-        Err(_) => {
-            writeln!(out, "{}\tSKIP\tparse-panic\t{}", id, esc_line(src)).unwrap();
-            return;
+    }
+    s
+}
+
+pub fn split_project(text: &str) -> Vec<(String, String)> {
+    if !text.lines().any(|l| l.starts_with(FILE_MARK)) {
+        return vec![("main.gom".to_string(), text.to_string())];
+    }
+    let mut files: Vec<(String, String)> = Vec::new();
+    for line in text.split_inclusive('\n') {
+        if let Some(p) = line.strip_prefix(FILE_MARK) {
+            files.push((p.trim().to_string(), String::new()));
+        } else if let Some(last) = files.last_mut() {
+            last.1.push_str(line);
+        }
+    }
+    files
+}
+
+/// `real_path`: a corpus program compiled where it lives; otherwise the files are written to a
+/// directory of their own (every `.gom` next to `main.gom` belongs to package Main)
+fn run_case(id: &str, files: &[(String, String)], dir: &Path, real_path: Option<&Path>, out: &mut String, extra: &str) {
+    let joined = join_project(files);
+    let case_dir = dir.join("case");
+    let _ = std::fs::remove_dir_all(&case_dir);
+    let entry = match real_path {
+        Some(p) => p.to_path_buf(),
+        None => {
+            for (rel, src) in files {
+                let p = case_dir.join(rel);
+                let _ = std::fs::create_dir_all(p.parent().unwrap());
+                let _ = std::fs::write(&p, src);
+            }
+            case_dir.join("main.gom")
         }
     };
-    let dump = scope_dump(&file);
-    let mut globals = Vec::new();
-    let real = match real_resolution(file, &dump.use_tags, &mut globals) {
-        Ok(s) => s,
-        Err(e) => format!("ERROR {}", e),
+    // the files of package Main: those next to the entry
+    let mut asts: Vec<(std::path::PathBuf, ast::File)> = Vec::new();
+    for (rel, src) in files.iter().filter(|(rel, _)| !rel.contains('/')) {
+        let path = if rel == "main.gom" { entry.clone() } else { case_dir.join(rel) };
+        let parsed = std::panic::catch_unwind(std::panic::AssertUnwindSafe(|| {
+            compiler::pipeline::pipeline::parse_ast_file(&path, src)
+        }));
+        match parsed {
+            Ok(Ok(f)) => asts.push((path, f)),
+            Ok(Err(e)) => {
+                writeln!(out, "{}\tSKIP\tparse-{}\t{}", id, util::stage_of(&e), esc_line(&joined)).unwrap();
+                return;
+            }
+            Err(_) => {
+                writeln!(out, "{}\tSKIP\tparse-panic\t{}", id, esc_line(&joined)).unwrap();
+                return;
+            }
+        }
+    }
+    // the resolver reads the files of a package in path order
+    asts.sort_by(|x, y| x.0.cmp(&y.0));
+    let dump = scope_dump(&asts.iter().map(|(_, f)| f).collect::<Vec<_>>());
+    let (real, shared) = match real_resolution(asts, &dump.use_tags) {
+        Ok(r) => (
+            r.map,
+            r.shared.iter().map(|g| g.iter().map(|t| t.to_string()).collect::<Vec<_>>().join("+")).collect::<Vec<_>>().join(","),
+        ),
+        Err(e) => (format!("ERROR {}", e), String::new()),
     };
-    let mut items = vec![tagged("globals", globals.iter().map(a).collect())];
-    items.extend(dump.fns.iter().cloned());
-    let sexp = tagged("fns", items);
-    let outcome = match real_path {
-        Some(p) => util::compile_path(p, src),
-        None => util::compile_text(dir, src),
-    };
+    let defs = tagged("defs", dump.defs.iter().map(a).collect());
+    let sexp = tagged(
+        "fns",
+        dump.files
+            .iter()
+            .map(|f| {
+                let mut items = vec![tagged("ctors", f.ctors.iter().map(a).collect()), defs.clone()];
+                items.extend(f.fns.iter().cloned());
+                tagged("file", items)
+            })
+            .collect(),
+    );
+    let outcome = util::compile_path(&entry, &files[0].1);
     let acc = match outcome {
         Outcome::Ok(_) => "ok".to_string(),
         Outcome::Err(stage, msgs) => {
-            format!("err:{}:{}", stage, esc_line(&msgs.iter().take(3).cloned().collect::<Vec<_>>().join(" | ")))
+            // the scoping diagnostics first, so that the three messages kept show them
+            let (mut first, rest): (Vec<String>, Vec<String>) =
+                msgs.into_iter().partition(|m| m.contains("Unresolved name") || m.contains("not found in environment"));
+            first.extend(rest);
+            format!("err:{}:{}", stage, esc_line(&first.iter().take(3).cloned().collect::<Vec<_>>().join(" | ")))
         }
         Outcome::Panic(m) => format!("panic:{}", esc_line(&m)),
     };
     writeln!(
         out,
-        "{}\tCASE\t{}\t{}\t{}\tuses={} binders={} outside={} {}\t{}",
+        "{}\tCASE\t{}\t{}\t{}\tuses={} binders={} outside={} cons={} shared={} {}\t{}",
         id,
         sexp.to_text(),
         real,
@@ -500,10 +854,13 @@ fn run_case(id: &str, src: &str, dir: &Path, real_path: Option<&Path>, out: &mut
         dump.use_tags.len(),
         dump.binders,
         dump.outside,
+        dump.con_nodes,
+        if shared.is_empty() { "-" } else { &shared },
         extra,
-        esc_line(src)
+        esc_line(&joined)
     )
     .unwrap();
+    let _ = std::fs::remove_dir_all(&case_dir);
 }
 
 pub fn main(args: &util::Args) {
@@ -514,7 +871,7 @@ pub fn main(args: &util::Args) {
     let mut corpus: Vec<(String, String, Option<std::path::PathBuf>)> = Vec::new();
     if let Some(f) = args.rest.iter().position(|a| a == "--file").and_then(|i| args.rest.get(i + 1)) {
         let src = std::fs::read_to_string(f).expect("read --file");
-        run_case("replay", &src, &dir, None, &mut out, "stream=replay");
+        run_case("replay", &split_project(&src), &dir, None, &mut out, "stream=replay");
         let _ = std::fs::create_dir_all(&args.out);
         std::fs::write(args.out.join("c05.cases.tsv"), out).unwrap();
         let _ = std::fs::remove_dir_all(&dir);
@@ -535,28 +892,78 @@ pub fn main(args: &util::Args) {
         }
     }
     for (id, src, rp) in &corpus {
-        run_case(id, src, &dir, rp.as_deref(), &mut out, "stream=corpus");
+        let files = if rp.is_some() { vec![("main.gom".to_string(), src.clone())] } else { split_project(src) };
+        run_case(id, &files, &dir, rp.as_deref(), &mut out, "stream=corpus");
     }
-    let total = args.n.unwrap_or(if args.tier == "thorough" { 6000 } else { 600 });
+    let total = args.n.unwrap_or(if args.tier == "thorough" { 9000 } else { 900 });
     let mut feats_total: HashMap<&'static str, usize> = HashMap::new();
     for i in 0..total {
         let mut root = Rng::new(args.seed);
-        let rng = root.fork(i as u64);
+        let mut rng = root.fork(i as u64);
         // a third of the programs draw some names regardless of scope (ill-scoped stream)
         let stray = if i % 3 == 2 { 120 } else { 0 };
         let depth = 1 + (i % 3);
-        let mut g = Gen { rng, stray, strays: 0, globals_clash: i % 4 == 1, feats: HashMap::new() };
-        let src = g.program(depth);
+        // a third of the programs: names a, b, c only (with top-level fns a, b in a quarter of
+        // them); two thirds: an enum whose constructors are spelled like the local names
+        let site = match (i / 3) % 6 {
+            0 | 1 => Site::None,
+            2 | 3 => Site::SameFile,
+            4 => Site::OtherFile,
+            _ => Site::Imported,
+        };
+        let v_null = *rng.pick(&["a", "A", "red"]);
+        let v_pay = *rng.pick(&["b", "B", "Blue"]);
+        // the third name: free, or spelled like the helper function / the enum type / the struct
+        let third = *rng.pick(&["c", "c", "cv", "Color", "P"]);
+        let has_struct = rng.chance(1, 2);
+        let ctor_patterns = site == Site::SameFile && i % 7 == 3;
+        let pool: Vec<&'static str> = if site == Site::None { NAMES.to_vec() } else { vec![v_null, v_pay, third, "c"] };
+        let mut file_ctors: Vec<&'static str> = Vec::new();
+        let mut pkg_ctors: Vec<&'static str> = Vec::new();
+        if site == Site::SameFile {
+            file_ctors.extend([v_null, v_pay]);
+        }
+        if site == Site::SameFile || site == Site::OtherFile {
+            pkg_ctors.extend([v_null, v_pay]);
+        }
+        if has_struct {
+            file_ctors.push("P");
+        }
+        let mut g = Gen {
+            rng,
+            stray,
+            strays: 0,
+            globals_clash: site == Site::None && i % 4 == 1,
+            feats: HashMap::new(),
+            pool,
+            site,
+            v_null,
+            v_pay,
+            file_ctors,
+            pkg_ctors,
+            ctor_patterns,
+            dups: i % 5 == 3,
+            has_struct,
+        };
+        let files = g.program(depth);
         for (k, v) in &g.feats {
             *feats_total.entry(k).or_default() += v;
         }
         let extra = format!(
-            "stream={} strays={} globals_clash={}",
-            if stray > 0 { "stray" } else { "scoped" },
+            "stream={} strays={} globals_clash={} site={:?} dups={}",
+            if stray > 0 {
+                "stray"
+            } else if ctor_patterns {
+                "ctorpat"
+            } else {
+                "scoped"
+            },
             g.strays,
-            g.globals_clash
+            g.globals_clash,
+            site,
+            g.dups
         );
-        run_case(&format!("gen:{}:{}", args.seed, i), &src, &dir, None, &mut out, &extra);
+        run_case(&format!("gen:{}:{}", args.seed, i), &files, &dir, None, &mut out, &extra);
     }
     let mut feats: Vec<_> = feats_total.into_iter().collect();
     feats.sort();
